@@ -328,6 +328,14 @@ func (vc *VC) frameFormula(st *State) *Term {
 		i := Var("i!frame", SInt)
 		var allowed []*Term
 		for _, r := range regs {
+			if r.wholeHeap != nil {
+				for _, cp := range layout(r.wholeHeap) {
+					if heapNameFor(r.wholeHeap, cp) == name {
+						allowed = append(allowed, guardAnd(r.guard, True))
+					}
+				}
+				continue
+			}
 			if r.wholeMap != nil {
 				if strings.HasPrefix(name, "Map["+typeKey(r.wholeMap)+"]") {
 					allowed = append(allowed, guardAnd(r.guard, Eq(a, r.mapRef)))
